@@ -124,6 +124,40 @@ impl Iterator for FollowFileIterator {
     }
 }
 
+/// The lines of a reader, like `BufRead::lines()`, except that a line which is not valid UTF-8 is still
+/// delivered (invalid sequences are replaced by U+FFFD) instead of being reported as an error.
+pub struct LossyLines<B: BufRead> {
+    reader: B
+}
+
+pub fn lossy_lines<B: BufRead>(reader: B) -> LossyLines<B> {
+    LossyLines {
+        reader
+    }
+}
+
+impl<B: BufRead> Iterator for LossyLines<B> {
+    type Item = std::io::Result<String>;
+
+    fn next(&mut self) -> Option<Self::Item> {
+        let mut line = Vec::new();
+        match self.reader.read_until(b'\n', &mut line) {
+            Ok(0) => None,
+            Ok(_) => {
+                if line.ends_with(b"\n") {
+                    line.pop();
+                    if line.ends_with(b"\r") {
+                        line.pop();
+                    }
+                }
+
+                Some(Ok(String::from_utf8_lossy(&line).into_owned()))
+            }
+            Err(err) => Some(Err(err))
+        }
+    }
+}
+
 pub fn tuple_result<T1, T2, E>(x: Result<T1, E>, y: Result<T2, E>) -> Result<(T1, T2), E> {
     Ok((x?, y?))
 }
